@@ -30,7 +30,7 @@ ASSUMPTIONS = ["programs are straight-line (no loops), so the expected log is co
 CASES = {"quick": 250, "thorough": 6000}
 NSHARDS = 16
 
-CONSTRUCTS = ["new", "unannotated", "ctxcopy", "old", "none", "disabled", "dataclass", "method", "classmethod", "staticmethod", "property", "with", "recursion", "generator", "coroutine", "nonbinding"]
+CONSTRUCTS = ["new", "unannotated", "ctxcopy", "old", "none", "disabled", "dataclass", "method", "classmethod", "staticmethod", "property", "with", "recursion", "generator", "coroutine", "nonbinding", "wrapstack"]
 EXITS = ["return", "Exception", "KeyboardInterrupt", "GeneratorExit", "SystemExit"]
 RAISE = {"Exception": "raise ValueError('x')", "KeyboardInterrupt": "raise KI()", "GeneratorExit": "raise GeneratorExit()", "SystemExit": "raise SE(3)"}
 
@@ -46,7 +46,7 @@ def required_counters(tier):
 
 
 PRELUDE = '''
-import contextvars, dataclasses, typing
+import contextvars, dataclasses, functools, typing
 import numpy as np
 import jaxtyping
 from jaxtyping import jaxtyped, Shaped, AnnotationError
@@ -200,7 +200,7 @@ class Gen:
         tc = self.tc
         before = self.tr()
 
-        if self.disabled and c == "recursion":
+        if self.disabled and c in ("recursion", "wrapstack"):
             c = "new"
         NEW_STYLE = ("new", "unannotated", "ctxcopy", "dataclass", "method", "classmethod", "staticmethod", "property")
 
@@ -249,6 +249,20 @@ class Gen:
                         ok = True
                     self.expected.append((j2, "chk", ok, self.tr()))
             return r
+        if c == "wrapstack":
+            # a decorated function g, and a second decorated function f that carries g's metadata through
+            # functools.wraps (a retry / logging / caching layer that is itself type-checked): TWO calls, TWO scopes
+            j = self.new_id()
+            self.emit(ind, f"@jaxtyped(typechecker={tc})")
+            self.emit(ind, f"def g_{i}(x: {ann}, n: int):")
+            self.emit(ind + 1, f"obs({j})")
+            self.emit(ind, f"@jaxtyped(typechecker={tc})")
+            self.emit(ind, f"@functools.wraps(g_{i})")
+            self.emit(ind, f"def f_{i}(x: {ann}, n: int):")
+            self.emit(ind + 1, f"g_{i}(x, n)")
+            self.expected.append((j, "obs", {f"p{i}": size}))
+            prop = framed(ind + 1, True, nval)
+            return self.call_site(ind, i, f"f_{i}(A({size}), {nval})", prop, depth)
         if c == "unannotated":
             # no annotation anywhere: still a jaxtyped call, so still a context of its own
             self.emit(ind, f"@jaxtyped(typechecker={tc})")
